@@ -3,6 +3,10 @@ from mc import sweep
 
 
 def judge_case(case):
+    if case["kind"] == "envx":
+        from mc.explore import envx_run
+
+        return envx_run.replay("C16", case)
     return sweep.judge_c16(sweep.rec_from_case(case))[0]
 
 
@@ -26,3 +30,6 @@ def run(ctx):
     ctx.sub("mode_and_strictness_relations", states=n, transitions=12 * n, evaluations=12 * n, traces=12 * n, distinct_nontrivial=nt,
             exhaustive=True, mode1_successes_compared=t1, mode2_only_successes=t2, very_readable_successes_compared=tv)
     ctx.sample({"subcheck": "pair", "text": list(pl[len(pl) // 2][0]), "bg": list(pl[len(pl) // 2][1]), "settings": "all 12"})
+    from mc.explore import envx_run
+
+    envx_run.run(ctx, "C16")
